@@ -177,6 +177,21 @@ def corpus(ctx):
             ctx.count("component_count_at_dtype_boundary")
             one_case(ctx, a, b, E.mk_cfg("SEMANTIC", ["IOU", "DSC"], matcher=E.naive("IOU", (1, 2)), backend=backend), f"corpus.components-{n}")
         one_case(ctx, b, a[:, ::-1].copy(), E.mk_cfg("SEMANTIC", ["IOU"], matcher=E.naive("IOU", (1, 2))), f"corpus.components-{n}.mirrored")
+    # a perfectly predicted instance whose two labels sum to 2^bits, far (beyond the crop padding) from everything else
+    for dt, (la, lb) in ((np.uint8, (128, 128)), (np.uint8, (100, 156)), (np.uint16, (32768, 32768)), (np.uint8, (255, 1))):
+        rw = np.zeros((12, 30), dt)
+        pw = np.zeros((12, 30), dt)
+        rw[2:6, 2:6], pw[2:6, 2:7] = 3, 3
+        rw[4:8, 22:26], pw[4:8, 22:26] = lb, la
+        for it in ("SEMANTIC", "UNMATCHED", "MATCHED"):
+            if it == "MATCHED" and la != lb:
+                continue
+            if it == "SEMANTIC":
+                rw2, pw2 = np.where(rw > 0, la, 0).astype(dt), np.where(pw > 0, la if la == lb else 256 - la if dt == np.uint8 else 65536 - la, 0).astype(dt)
+            else:
+                rw2, pw2 = rw, pw
+            ctx.count("labels_summing_to_2^bits")
+            one_case(ctx, pw2, rw2, E.mk_cfg(it, ["IOU", "DSC"], matcher=E.naive("IOU", (1, 2)) if it != "MATCHED" else None), "corpus.wrap-sum")
     # a decision threshold of exactly zero accepts every matched pair (IoU / Dice) resp. only perfect ones (ASSD)
     ref = np.zeros((1, 30), np.uint8)
     pred = np.zeros((1, 30), np.uint8)
